@@ -2,6 +2,7 @@
    model and specification on the same inputs, reports MISMATCH / STAT / SAMPLE lines. *)
 open Common
 
+let contexts = ref 0
 let () =
   let kind = if Array.length Sys.argv > 1 then Sys.argv.(1) else "pos" in
   (try
@@ -9,7 +10,8 @@ let () =
        let line = input_line stdin in
        if String.length line = 0 then ()
        else begin
-         try
+         let before = !total_mismatches in
+         (try
            match kind with
            | "pos" ->
              if String.length line > 2 && String.sub line 0 2 = "P " then Poschk.check_pline (Poschk.parse_pline line)
@@ -27,7 +29,13 @@ let () =
            | _ -> Streams.dispatch kind line
          with
          | End_of_file -> raise End_of_file
-         | e -> mismatch "driver_exception" (Printexc.to_string e ^ " on " ^ (if String.length line > 300 then String.sub line 0 300 else line))
+         | e -> mismatch "driver_exception" (Printexc.to_string e ^ " on " ^ (if String.length line > 300 then String.sub line 0 300 else line)));
+         (* the complete input line (start position, operation sequence with every observed result)
+            on which a disagreement was found: the concrete replay of that failure *)
+         if !total_mismatches > before && !contexts < 4 then begin
+           incr contexts;
+           Printf.printf "CONTEXT %s %s\n" kind (if String.length line > 6000 then String.sub line 0 6000 ^ " ..." else line)
+         end
        end
      done
    with End_of_file -> ());
